@@ -618,6 +618,15 @@ func runMP(c *engine.Ctx, prop string) {
 			New: func() (engine.Sys, error) { return newMPSysBurn(cfg, bu, prop, 8) }})
 		c.Bounds[name] = map[string]interface{}{"keys": bu.keys, "pre_burned_upload_ids": 8, "max_open_uploads": bu.maxOpen, "history_depth": 4}
 	}
+	if prop == "C14" {
+		// a key next to the keys below it ("b" and "b/c"): the common prefix "b/" sorts between them
+		cfg := drv.Config{Kind: drv.Mem}
+		fu := &mpUniverse{keys: []string{"a", "b", "b/c", "c"}, partNums: []int{1}, bodies: []string{"a"}, maxOpen: 4, maxInit: 4, maxParts: 1}
+		name := prop + "/mem/key-and-its-folder"
+		engine.RunSeq(c, engine.SeqSpec{Name: name, World: "mem", MaxDepth: 4,
+			New: func() (engine.Sys, error) { return newMPSys(cfg, fu, prop) }})
+		c.Bounds[name] = map[string]interface{}{"keys": fu.keys, "max_open_uploads": fu.maxOpen, "history_depth": 4}
+	}
 	for i, cfg := range cfgs {
 		cfg := cfg
 		d := depth
